@@ -79,6 +79,16 @@ Theorem compound_declaration_order_refuted :   (* F5: Either(String(maxlen=5), C
 Proof. exists E0, [DString 0 5 None; DCast CTInt], (PStr [49; 50]). exact refuted_declaration_order. Qed.
 Print Assumptions compound_declaration_order_refuted.
 
+(* the law that is evaluated on the implementation's outcomes holds, all four clauses, on the model's
+   own outcomes (compiled path, Python path, every declared alternative alone) *)
+Theorem law_holds_on_model :
+  forall E d v, wf_desc d = true -> c03_scope d = true -> benign E d v = true ->
+    (forall ds, d = DCompound ds -> order_preserved ds = true) ->
+    law_obs (c_validate E d v, Some (py_validate E d v),
+             match d with DCompound ds => Some (map (fun a => c_validate E a v) ds) | _ => None end) = [].
+Proof. exact law_on_model_lemma. Qed.
+Print Assumptions law_holds_on_model.
+
 (* Tuple: accepted iff it is a tuple of the right length whose members are accepted one by one by
    the member traits; the result is the value itself when no member changed, else the exact tuple
    of the member results *)
